@@ -345,7 +345,16 @@ impl TransportFn<()> for BufRun {
                             });
                             oplog(|| format!("receive of a delivery with a used length below the header -> {:?}", r.as_ref().map(|b| b.packet_len())));
                             match r {
-                                Err(_) => lost += 1,
+                                Err(_) => {
+                                    // the driver gives the buffer up - or puts it back on the
+                                    // queue at once; both keep every buffer accounted for
+                                    let (post, done) = with(|w| (posted(w, 0), w.personality::<NetDev>().delivered.len()));
+                                    if post + done + held.len() + lost != NET_QS {
+                                        lost += 1;
+                                    } else {
+                                        probe("malformed_rx_buffer_reposted");
+                                    }
+                                }
                                 Ok(b) => {
                                     violation("net-short-length-accepted", "receive", format!("used length shorter than the {hl}-byte header, yet receive() returned a packet of {} bytes", b.packet_len()));
                                     held.push(b);
